@@ -69,7 +69,11 @@ type idpreqIn struct {
 	II    string `json:"ii"`
 	URL   string `json:"url"`
 	Idx   string `json:"idx"`
+	Subj  bool   `json:"subj,omitempty"` // the request proposes a subject: <saml:Subject> with a requester-written NameID
 }
+
+// idpreqRequesterNameID is the name identifier a requester writes into its AuthnRequest: nobody's session has it.
+const idpreqRequesterNameID = "admin@requester.example.com"
 
 type idpreqVec struct {
 	Mid      int64        `json:"mid"`
@@ -412,6 +416,14 @@ func idpreqRequestXML(v *idpreqVec, now time.Time, rng *rand.Rand, id string) []
 		}
 	case "empty":
 		el.CreateElement("saml:Issuer")
+	}
+	if in.Subj {
+		sub := el.CreateElement("saml:Subject")
+		nid := sub.CreateElement("saml:NameID")
+		if rng.Intn(2) == 0 {
+			nid.CreateAttr("Format", "urn:oasis:names:tc:SAML:1.1:nameid-format:emailAddress")
+		}
+		nid.SetText(idpreqRequesterNameID)
 	}
 	if rng.Intn(2) == 0 {
 		np := el.CreateElement("samlp:NameIDPolicy")
